@@ -78,6 +78,18 @@ def ops_product(ops, order):
     return np.asarray(out).reshape(N, N)
 
 
+def build_circuit(items):
+    """top-level circuit of a scenario: every top-level item in its own moment (InsertStrategy.NEW), so that the program
+    order of the spec (e.g. 'outer key measured BEFORE the sub-circuit') is the moment order of the real circuit;
+    sub-circuit bodies are built with the default EARLIEST strategy"""
+    import cirq
+
+    c = cirq.Circuit()
+    for x in items:
+        c.append(SM.to_cirq(x), strategy=cirq.InsertStrategy.NEW)
+    return c
+
+
 def key_strs(keys):
     return {str(k) for k in keys}
 
@@ -146,7 +158,7 @@ def scenario_single(bi, wi, t, u):
     return [G('H', [2]), M('a', [2]), Sub(items, **kw), G('Z', [1], u, conds=['a']), G('H', [1], 0.5)], 3
 
 
-NESTED = ['inner_binds_middle', 'inner_binds_global', 'two_levels_two_keys', 'outer_reads_inner_path', 'sibling_not_visible']
+NESTED = ['inner_binds_middle', 'inner_binds_global', 'two_levels_two_keys', 'outer_reads_inner_path', 'sibling_not_visible', 'sibling_same_path']
 NEST_WRAPS_IN = ('ids2', 'loop2', 'ids2_path')
 NEST_WRAPS_OUT = ('ids2', 'id_x', 'loop2', 'loop2_path2')
 
@@ -168,8 +180,10 @@ def scenario_nested(ni, wi, wo, t, u, depth3=False):
         # the top level reads keys of the (un-nested) repeated sub-circuit by their full path
         items = [Sub([G('H', [0]), M('a', [0])], reps=2, use_ids=True), G('X', [1], t, conds=['1:a']), G('Y', [1], u, conds=['0:a'])]
         return items, 2
-    else:  # sibling_not_visible: the second sibling's control must not bind to the first sibling's key of equal path
-        mid = [Sub([G('H', [0]), M('a', [0])], **Wi), Sub([G('X', [1], t, conds=['a'])], **Wi)]
+    elif kind == 'sibling_not_visible':  # the second sibling's control must not bind to the first sibling's key of equal path
+        mid = [Sub([G('H', [0]), M('a', [0]), G('Z', [1], 0.5)], **Wi), Sub([G('X', [1], t, conds=['a'])], **Wi)]  # Z on qubit 1 orders the siblings
+    else:  # sibling_same_path: a parent_path that coincides with the sibling's repetition id must not capture its key
+        mid = [Sub([G('H', [0]), M('a', [0]), G('Z', [1], 0.5)], reps=2, use_ids=True), Sub([G('X', [1], t, conds=['a'])], path=('0',), **{k: w for k, w in Wi.items() if k != 'path'})]
     top = [G('H', [2]), M('a', [2]), Sub(mid, **Wo), G('Z', [1], u, conds=['a'])]
     if depth3:
         top = [G('H', [2]), M('a', [2]), Sub([Sub(mid, **Wo)], reps=2, ids=['s', 't']), G('Z', [1], u, conds=['a'])]
@@ -267,7 +281,7 @@ def compare_run(cx, items, nq, route, wrong=False, label='sim', max_draws=64):
     import cirq
 
     order = list(range(nq))
-    circuit = cirq.Circuit(SM.to_cirq(x) for x in items)
+    circuit = build_circuit(items)
     flat = SM.flatten(items)
     missing = SM.static_missing(flat)
     try:
@@ -376,7 +390,7 @@ def obligations(tier):
         op = SM.to_cirq(spec)
         cx.close(cirq.unitary(op), _wrong(SM.flat_unitary(SM.flatten([spec]), [0]), wrong), label='unitary of 1-qubit sub-circuit containing a global phase operation')
 
-    obs.append(Obligation('unitary1q.global_phase', body_1q_gp, twin=lambda cx: body_1q_gp(cx, wrong=True), points=[{'t': 0.5, 'u': 0.5, 'v': 0.25, 'choose:reps': 3, 'choose:place': 1}], desc='cirq.unitary of a ONE-qubit CircuitOperation containing a zero-qubit global phase operation (was a ValueError before commit 26a2067)'))
+    obs.append(Obligation('unitary1q.global_phase', body_1q_gp, twin=lambda cx: body_1q_gp(cx, wrong=True), points=[{'t': 0.5, 'u': 0.5, 'choose:reps': 3, 'choose:place': 1}], desc='cirq.unitary of a ONE-qubit CircuitOperation containing a zero-qubit global phase operation (was a ValueError before commit 26a2067)'))
 
     # ==== B. nesting: depth 2 (quick) / 3 --------------------------------------------------------------------
     ro_menu = (-1, 2) if quick else REPS
@@ -385,9 +399,11 @@ def obligations(tier):
     qi_menu = (None, {0: 1, 1: 0})
 
     def nested_spec(cx, t, u, v, depth):
-        ro = ro_menu[cx.choose('ro', len(ro_menu))]
-        ri = ri_menu[cx.choose('ri', len(ri_menu))]
-        qo = qo_menu[cx.choose('qo', len(qo_menu))]
+        # depth 3 (thorough only) keeps the small repetition menus: 2x4x2x2 x (2x2 for the third level) shapes
+        rom, rim, qom = (ro_menu, ri_menu, qo_menu) if depth == 2 else ((-1, 2), (-2, 0, 1, 3), qo_menu[:2])
+        ro = rom[cx.choose('ro', len(rom))]
+        ri = rim[cx.choose('ri', len(rim))]
+        qo = qom[cx.choose('qo', len(qom))]
         qi = qi_menu[cx.choose('qi', len(qi_menu))]
         inner = Sub([G('X', [0], P('a')), G('CX', [0, 1], 1.0), G('Z', [1], P('c'))], reps=ri, qmap=qi, params={'a': P('b', 0.5)})
         outer = Sub([G('Z', [0], u), inner, G('CZ', [0, 1], v)], reps=ro, qmap=qo, params={'b': t, 'c': u})
@@ -412,6 +428,8 @@ def obligations(tier):
         cx.close(ops_product(cirq.decompose(op), order), exp, tol=TOL_DECOMP, label='decompose product')
         c0 = cirq.Circuit(op)
         for nm, fn in (('unroll_circuit_op', cirq.unroll_circuit_op), ('greedy_earliest', cirq.unroll_circuit_op_greedy_earliest), ('greedy_frontier', cirq.unroll_circuit_op_greedy_frontier)):
+            if depth == 3 and nm == 'greedy_earliest':
+                continue  # open finding unroll.greedy_earliest_order reproduces here (H^v follows the nested sub-circuit); it has its own obligation
             un = fn(c0, deep=True, tags_to_check=None)
             cx.check(not any(isinstance(o.untagged, cirq.CircuitOperation) for o in un.all_operations()), f'{nm}: no CircuitOperation left')
             cx.close(circuit_unitary(un, order), exp, label=f'{nm}(deep=True).unitary')
@@ -436,8 +454,8 @@ def obligations(tier):
                 lambda cx, wrong=False: body_nested(cx, wrong, depth=3),
                 twin=lambda cx: body_nested(cx, True, depth=3),
                 opts={'weight': 40, 'max_paths': 100000},
-                points=[{'t': 0.25, 'u': -0.5, 'choose:ro': 1, 'choose:ri': 4, 'choose:rt': 1, 'choose:qt': 1}],
-                desc='three nested CircuitOperations (depth 3), all repetition combinations, parameter chain through three resolvers',
+                points=[{'t': 0.25, 'u': -0.5, 'choose:ro': 1, 'choose:ri': 3, 'choose:rt': 1, 'choose:qt': 1}],
+                desc='three nested CircuitOperations (depth 3): repetitions (-1,2) x (-2,0,1,3) x (-1,2), qubit maps at all three levels, parameter chain through three resolvers',
             )
         )
 
@@ -572,7 +590,9 @@ def obligations(tier):
         spec = base_keys_sub(t, u, kmap={n: w for n, w in comp.items() if n != w}, **_wrap(wname))
         cx.check(dict(op.measurement_key_map) == spec.kmap, 'k1 then k2 == one mapping with the composition')
         items = [G('H', [2]), M(comp['b'], [2]), spec, G('H', [1], 0.5)]
-        circuit = cirq.Circuit(SM.to_cirq(items[0]), SM.to_cirq(items[1]), op, SM.to_cirq(items[3]))
+        circuit = cirq.Circuit()
+        for o in (SM.to_cirq(items[0]), SM.to_cirq(items[1]), op, SM.to_cirq(items[3])):
+            circuit.append(o, strategy=cirq.InsertStrategy.NEW)
         flat = SM.flatten(items)
         cx.check(key_strs(cirq.measurement_key_objs(op)) == SM.flat_measurement_keys(SM.flatten([spec])), 'measurement keys after composed key maps')
         cx.check(key_strs(cirq.control_keys(op)) == SM.flat_external_controls(SM.flatten([spec])), 'control keys after composed key maps')
@@ -633,7 +653,9 @@ def obligations(tier):
             op = base.mapped_op(deep=True)
         spec = base_keys_sub(t, u, **W2)
         items = [G('H', [2]), M('b', [2]), spec, G('H', [1], 0.5)]
-        circuit = cirq.Circuit(SM.to_cirq(items[0]), SM.to_cirq(items[1]), op, SM.to_cirq(items[3]))
+        circuit = cirq.Circuit()
+        for o in (SM.to_cirq(items[0]), SM.to_cirq(items[1]), op, SM.to_cirq(items[3])):
+            circuit.append(o, strategy=cirq.InsertStrategy.NEW)
         flat = SM.flatten(items)
         if kind != 'mapped_op':
             cx.check(tuple(op.parent_path) == tuple(W2.get('path', ())), 'parent_path')
@@ -644,8 +666,8 @@ def obligations(tier):
     obs.append(Obligation('compose.key_paths', body_compose_paths, twin=lambda cx: body_compose_paths(cx, wrong=True), opts={'weight': 5}, points=[{'t': 0.3, 'u': 0.7, 'choose:wrap': i % 4, 'choose:op': i} for i in range(9)], desc='with_key_path_prefix (once, twice), with_key_path (protocol, method), with_rescoped_keys, replace(parent_path), with_repetition_ids, repeat(2, ids) (cartesian id join), mapped_op on 4 wrappers: keys, external controls and unrolled structure equal the harness spec with the path / ids composed by hand'))
 
     # ==== D. key structure: wrapped vs harness-unrolled (keys, controls, scoping) ------------------------------
-    def struct_checks(cx, items, nq, wrong=False, label=''):
-        circuit = cirq.Circuit(SM.to_cirq(x) for x in items)
+    def struct_checks(cx, items, nq, wrong=False, label='', skip_unroll=False):
+        circuit = build_circuit(items)
         flat = SM.flatten(items)
         top = cirq.CircuitOperation(circuit.freeze())
         # key protocols of the wrapped forms, queried before and after unrolling (instance caches)
@@ -656,16 +678,18 @@ def obligations(tier):
             if rnd == 0:
                 compare_structure(cx, top.mapped_circuit(deep=True), flat, f'{label}: mapped_circuit(deep)', wrong)
                 compare_structure(cx, cirq.Circuit(cirq.decompose(top, keep=lambda o: not isinstance(o.untagged, cirq.CircuitOperation))), flat, f'{label}: decompose')
-                compare_structure(cx, cirq.unroll_circuit_op(circuit, deep=True, tags_to_check=None), flat, f'{label}: unroll_circuit_op')
+                if not skip_unroll:
+                    compare_structure(cx, cirq.unroll_circuit_op(circuit, deep=True, tags_to_check=None), flat, f'{label}: unroll_circuit_op')
         # every sub-circuit operation on its own: keys / controls / qubits vs its own flat program
         for it in items:
             if isinstance(it, Sub):
                 op = SM.to_cirq(it)
                 f1 = SM.flatten([it])
                 cx.check(key_strs(cirq.measurement_key_objs(op)) == SM.flat_measurement_keys(f1), f'{label}: measurement_key_objs(sub op)')
-                cx.check(key_strs(cirq.control_keys(op)) == SM.flat_external_controls(f1), f'{label}: control_keys(sub op)')
                 cx.check(tuple(q.x for q in op.qubits) == SM.sub_qubits(it), f'{label}: qubits(sub op)')
-                cx.check(cirq.is_measurement(op) == bool(SM.flat_measurement_keys(f1)) or abs(it.reps) == 0, f'{label}: is_measurement(sub op)')
+                if it.reps != 0:  # control_keys / is_measurement of a 0-repetition op: obligation keys.zero_repetitions_protocols
+                    cx.check(key_strs(cirq.control_keys(op)) == SM.flat_external_controls(f1), f'{label}: control_keys(sub op)')
+                    cx.check(cirq.is_measurement(op) == bool(SM.flat_measurement_keys(f1)), f'{label}: is_measurement(sub op)')
 
     for bi in range(N_INNER):
         bname = inner_bodies(0, 0)[bi][0]
@@ -684,9 +708,12 @@ def obligations(tier):
         wi = cx.choose('wi', len(NEST_WRAPS_IN))
         wo = cx.choose('wo', len(NEST_WRAPS_OUT))
         items, nq = scenario_nested(ni, wi, wo, t, u, depth3)
-        struct_checks(cx, items, nq, wrong, label=f'{NESTED[ni]}/{NEST_WRAPS_IN[wi]}/{NEST_WRAPS_OUT[wo]}')
+        # depth 3 + an id-less outer loop whose body reads `a` before measuring it: unroll_circuit_op(deep=True) re-binds the
+        # control of the 2nd iteration (finding unroll.deep_loop_rebinding, own obligation); the other routes are still compared
+        skip = depth3 and NESTED[ni] == 'inner_binds_global' and NEST_WRAPS_OUT[wo] in ('loop2', 'loop2_path2')
+        struct_checks(cx, items, nq, wrong, label=f'{NESTED[ni]}/{NEST_WRAPS_IN[wi]}/{NEST_WRAPS_OUT[wo]}', skip_unroll=skip)
 
-    obs.append(Obligation('keys.nested2', body_keys_nested, twin=lambda cx: body_keys_nested(cx, wrong=True), opts={'weight': 10}, points=[{'t': 0.3, 'u': 0.7, 'choose:scenario': i % 5, 'choose:wi': i % 3, 'choose:wo': i % 4} for i in range(8)], desc=f'nested sub-circuits ({len(NESTED)} scoping scenarios x {len(NEST_WRAPS_IN)} inner x {len(NEST_WRAPS_OUT)} outer wrapper configurations): every classical control refers to the measurement it is scoped to (inner key shadows outer, control before measurement binds outwards, sibling keys invisible, outer control by full key path)'))
+    obs.append(Obligation('keys.nested2', body_keys_nested, twin=lambda cx: body_keys_nested(cx, wrong=True), opts={'weight': 10}, points=[{'t': 0.3, 'u': 0.7, 'choose:scenario': i % 6, 'choose:wi': i % 3, 'choose:wo': i % 4} for i in range(8)], desc=f'nested sub-circuits ({len(NESTED)} scoping scenarios x {len(NEST_WRAPS_IN)} inner x {len(NEST_WRAPS_OUT)} outer wrapper configurations): every classical control refers to the measurement it is scoped to (inner key shadows outer, control before measurement binds outwards, sibling keys invisible, outer control by full key path)'))
     if not quick:
         obs.append(Obligation('keys.nested3', lambda cx, wrong=False: body_keys_nested(cx, wrong, True), twin=lambda cx: body_keys_nested(cx, True, True), opts={'weight': 15}, points=[{'t': 0.3, 'u': 0.7, 'choose:scenario': 0, 'choose:wi': 0, 'choose:wo': 0}], desc='the nested scenarios wrapped once more (depth 3) in a sub-circuit with custom repetition ids'))
 
@@ -702,7 +729,7 @@ def obligations(tier):
             items, nq = scenario_single(bi, wi, t, u)
             compare_run(cx, items, nq, route, wrong, label=f'{WRAPS[wi][0]}/{route}')
 
-        obs.append(Obligation(f'sim.single.{bname}', body, expected=(SM.MissingKey,), twin=lambda cx, b=body: b(cx, wrong=True), opts={'weight': 9, 'max_paths': 100000}, points=[{'t': 0.3, 'u': 0.7, 'choose:wrap': i, 'choose:draw0': i % 2, 'choose:draw1': 1} for i in range(len(wraps))], desc=f'cirq.Simulator on [H, measure a; sub-circuit {bname} under every wrapper configuration; Z^u controlled by a]: every measurement outcome is an explorer-chosen draw (scripted PRNG), controlled gates carry SYMBOLIC exponents; classical records key by key (all instances) and the final state vector equal the reference interpreter run on the harness-unrolled flat program'))
+        obs.append(Obligation(f'sim.single.{bname}', body, twin=lambda cx, b=body: b(cx, wrong=True), opts={'weight': 9, 'max_paths': 100000}, points=[{'t': 0.3, 'u': 0.7, 'choose:wrap': i, 'choose:draw0': i % 2, 'choose:draw1': 1} for i in range(len(wraps))], desc=f'cirq.Simulator on [H, measure a; sub-circuit {bname} under every wrapper configuration; Z^u controlled by a]: every measurement outcome is an explorer-chosen draw (scripted PRNG), controlled gates carry SYMBOLIC exponents; classical records key by key (all instances) and the final state vector equal the reference interpreter run on the harness-unrolled flat program'))
 
     def body_sim_nested(cx, wrong=False, depth3=False):
         t, u, v = params3(cx)
@@ -712,9 +739,9 @@ def obligations(tier):
         items, nq = scenario_nested(ni, wi, wo, t, u, depth3)
         compare_run(cx, items, nq, 'state', wrong, label=f'{NESTED[ni]}/{NEST_WRAPS_IN[wi]}/{NEST_WRAPS_OUT[wo]}')
 
-    obs.append(Obligation('sim.nested2', body_sim_nested, expected=(SM.MissingKey,), twin=lambda cx: body_sim_nested(cx, wrong=True), opts={'weight': 20, 'max_paths': 100000}, points=[{'t': 0.3, 'u': 0.7, 'choose:scenario': i % 5, 'choose:wi': i % 3, 'choose:wo': i % 4, 'choose:draw0': 1, 'choose:draw1': i % 2} for i in range(8)], desc='simulation of the nested scoping scenarios: records and SYMBOLIC final state equal the reference interpreter on the harness-unrolled program for every outcome sequence'))
+    obs.append(Obligation('sim.nested2', body_sim_nested, twin=lambda cx: body_sim_nested(cx, wrong=True), opts={'weight': 20, 'max_paths': 100000}, points=[{'t': 0.3, 'u': 0.7, 'choose:scenario': i % 6, 'choose:wi': i % 3, 'choose:wo': i % 4, 'choose:draw0': 1, 'choose:draw1': i % 2} for i in range(8)], desc='simulation of the nested scoping scenarios: records and SYMBOLIC final state equal the reference interpreter on the harness-unrolled program for every outcome sequence'))
     if not quick:
-        obs.append(Obligation('sim.nested3', lambda cx, wrong=False: body_sim_nested(cx, wrong, True), expected=(SM.MissingKey,), twin=lambda cx: body_sim_nested(cx, True, True), opts={'weight': 40, 'max_paths': 200000}, points=[], desc='depth-3 nested scoping scenarios simulated'))
+        obs.append(Obligation('sim.nested3', lambda cx, wrong=False: body_sim_nested(cx, wrong, True), twin=lambda cx: body_sim_nested(cx, True, True), opts={'weight': 40, 'max_paths': 200000}, points=[], desc='depth-3 nested scoping scenarios simulated'))
     # ==== F. repeat_until loops ---------------------------------------------------------------------------------
     UNTIL = ['plain', 'kmap', 'path', 'inside_ids2', 'sympy_eq', 'with_outer_control', 'inside_id_x_path']
 
@@ -750,7 +777,7 @@ def obligations(tier):
         # at most 3 iterations per loop are explored (longer all-zero outcome sequences are cut: unwinding bound)
         compare_run(cx, items, nq, route, wrong, label=f'until/{UNTIL[k]}/{route}', max_draws=(3 if 'inside_ids2' not in UNTIL[k] else 4) + (1 if nq == 3 else 0))
 
-    obs.append(Obligation('until.loops', body_until, expected=(SM.MissingKey,), twin=lambda cx: body_until(cx, wrong=True), opts={'weight': 8}, points=[{'t': 0.3, 'u': 0.7, 'choose:scenario': i, 'choose:route': 0, 'choose:draw0': 1, 'choose:draw1': 1, 'choose:draw2': 1} for i in range(7)], desc='repeat_until loops [H, measure m, X^t] (KeyCondition / SympyCondition; key map, parent path, nested in repetition ids, body reading an outer key of the same name): the loop runs until the scoped key is non-zero, at least once; records (every iteration) and SYMBOLIC final state equal the reference interpreter; every outcome sequence of <= 3 iterations'))
+    obs.append(Obligation('until.loops', body_until, twin=lambda cx: body_until(cx, wrong=True), opts={'weight': 8}, points=[{'t': 0.3, 'u': 0.7, 'choose:scenario': i, 'choose:route': 0, 'choose:draw0': 1, 'choose:draw1': 1, 'choose:draw2': 1} for i in range(7)], desc='repeat_until loops [H, measure m, X^t] (KeyCondition / SympyCondition; key map, parent path, nested in repetition ids, body reading an outer key of the same name): the loop runs until the scoped key is non-zero, at least once; records (every iteration) and SYMBOLIC final state equal the reference interpreter; every outcome sequence of <= 3 iterations'))
 
     # ==== G. defects found by this check: one obligation each ----------------------------------------------------------
     def body_zero_reps(cx, wrong=False):
@@ -760,13 +787,21 @@ def obligations(tier):
         op = SM.to_cirq(inner)
         if how == 0:
             cx.check(key_strs(cirq.measurement_key_objs(op)) == (set() if not wrong else {'b'}), 'a sub-circuit repeated 0 times measures nothing')
-            cx.check(not cirq.is_measurement(op), 'is_measurement of a sub-circuit repeated 0 times')
         else:
             W = dict(ids=['r']) if how == 1 else dict(reps=2, use_ids=True)
             items = [G('X', [0]), M('b', [0]), Sub([inner, G('X', [1], t, conds=['b'])], **W)]
             compare_run(cx, items, 2, 'state', wrong, label='phantom key of a 0-repetition sub-circuit must not shadow the outer key')
 
     obs.append(Obligation('keys.zero_repetitions', body_zero_reps, twin=lambda cx: body_zero_reps(cx, wrong=True), points=[{'t': 0.3, 'u': 0.7, 'choose:how': i} for i in range(3)], desc='CircuitOperation(repetitions=0) without repetition ids: reports no measurement keys, and does not shadow an outer key for a following control inside an enclosing scoped sub-circuit'))
+
+    def body_zero_reps_protocols(cx, wrong=False):
+        t, u, v = params3(cx)
+        use = (None, True)[cx.choose('use_ids', 2)]
+        op = SM.to_cirq(Sub([G('H', [0]), M('b', [0]), G('X', [1], t, conds=['a'])], reps=0, use_ids=use))
+        cx.check(key_strs(cirq.control_keys(op)) == (set() if not wrong else {'a'}), 'a sub-circuit repeated 0 times reads no key')
+        cx.check(not cirq.is_measurement(op), 'is_measurement of a sub-circuit repeated 0 times')
+
+    obs.append(Obligation('keys.zero_repetitions_protocols', body_zero_reps_protocols, twin=lambda cx: body_zero_reps_protocols(cx, wrong=True), points=[], desc='CircuitOperation(repetitions=0): control_keys is empty and is_measurement is False, as for its (empty) unrolled form'))
 
     def body_key_index(cx, wrong=False):
         t, u, v = params3(cx)
@@ -776,7 +811,7 @@ def obligations(tier):
         items = [Sub(body, **_wrap(WRAPS[wi][0]))]
         compare_run(cx, items, 2, 'state', wrong, label=f'KeyCondition index {idx} inside {WRAPS[wi][0]}')
 
-    obs.append(Obligation('control.key_index', body_key_index, expected=(SM.MissingKey,), twin=lambda cx: body_key_index(cx, wrong=True), opts={'weight': 3}, points=[{'t': 0.3, 'u': 0.7, 'choose:wrap': 8, 'choose:index': 0, 'choose:draw0': 1, 'choose:draw1': 0}], desc='KeyCondition(key, index=i) (i-th instance of a repeatedly measured key) inside a sub-circuit keeps its index through key rescoping / mapping: final SYMBOLIC state equals the reference interpreter'))
+    obs.append(Obligation('control.key_index', body_key_index, twin=lambda cx: body_key_index(cx, wrong=True), opts={'weight': 3}, points=[{'t': 0.3, 'u': 0.7, 'choose:wrap': 8, 'choose:index': 0, 'choose:draw0': 1, 'choose:draw1': 0}], desc='KeyCondition(key, index=i) (i-th instance of a repeatedly measured key) inside a sub-circuit keeps its index through key rescoping / mapping: final SYMBOLIC state equals the reference interpreter'))
 
     def body_bitmask(cx, wrong=False):
         t, u, v = params3(cx)
@@ -787,7 +822,7 @@ def obligations(tier):
         items = [Sub(body, **qm)]
         compare_run(cx, items, 3, 'state', wrong, label=f'BitMaskKeyCondition {mk} inside {WRAPS[wi][0]}')
 
-    obs.append(Obligation('control.bitmask', body_bitmask, expected=(SM.MissingKey,), twin=lambda cx: body_bitmask(cx, wrong=True), opts={'weight': 6}, points=[{'t': 0.3, 'u': 0.7, 'choose:wrap': 8, 'choose:mask': 0, 'choose:draw0': 2}], desc='BitMaskKeyCondition (bitmask / target_value / equal_target) on a two-qubit key inside a sub-circuit keeps its fields through key rescoping / mapping'))
+    obs.append(Obligation('control.bitmask', body_bitmask, twin=lambda cx: body_bitmask(cx, wrong=True), opts={'weight': 6}, points=[{'t': 0.3, 'u': 0.7, 'choose:wrap': 8, 'choose:mask': 0, 'choose:draw0': 2}], desc='BitMaskKeyCondition (bitmask / target_value / equal_target) on a two-qubit key inside a sub-circuit keeps its fields through key rescoping / mapping'))
 
     def body_greedy_earliest(cx, wrong=False):
         t, u, v = params3(cx)
@@ -796,12 +831,12 @@ def obligations(tier):
             # same defect seen through classical control: the controlled Z^u that FOLLOWS the sub-circuit must stay after it
             body = [G('H', [0]), M('a', [0]), G('X', [1], t, conds=['a'])]
             items = [G('H', [2]), M('a', [2]), Sub(body, reps=2, use_ids=True), G('Z', [1], u, conds=['a'])]
-            circuit = cirq.Circuit(SM.to_cirq(x) for x in items)
+            circuit = build_circuit(items)
             compare_structure(cx, cirq.unroll_circuit_op_greedy_earliest(circuit, deep=True, tags_to_check=None), SM.flatten(items), 'greedy_earliest', wrong)
             return
         sub = [Sub([G('X', [0], t), G('Y', [0], 0.3), G('CX', [0, 1])]), Sub([G('X', [0], t), G('Y', [0], 0.3), G('CX', [0, 1])], reps=2), Sub([G('CZ', [0, 1], t), G('X', [0], 0.3), G('ISWAP', [0, 1], 0.5)], reps=-1)][k]
         items = [sub, G('H', [1], u)]
-        circuit = cirq.Circuit(SM.to_cirq(x) for x in items)
+        circuit = build_circuit(items)
         exp = _wrong(SM.flat_unitary(SM.flatten(items), [0, 1]), wrong)
         cx.close(circuit_unitary(circuit, [0, 1]), exp, label='wrapped circuit')
         cx.close(circuit_unitary(cirq.unroll_circuit_op_greedy_earliest(circuit, tags_to_check=None), [0, 1]), exp, label='unroll_circuit_op_greedy_earliest keeps the unitary when operations follow the sub-circuit')
@@ -813,11 +848,24 @@ def obligations(tier):
         k = cx.choose('shape', 2)
         body = [G('H', [0]), M('a', [0]), G('X', [1], t, conds=['a'])]
         items = [Sub(body)] if k == 0 else [G('H', [2]), M('a', [2]), Sub(body, reps=2, use_ids=True), G('Z', [1], u, conds=['a'])]
-        circuit = cirq.Circuit(SM.to_cirq(x) for x in items)
+        circuit = build_circuit(items)
         compare_structure(cx, cirq.unroll_circuit_op_greedy_frontier(circuit, deep=True, tags_to_check=None), SM.flatten(items), 'greedy_frontier', wrong)
 
     obs.append(Obligation('unroll.greedy_frontier_keys', body_greedy_frontier, twin=lambda cx: body_greedy_frontier(cx, wrong=True), points=[], desc='unroll_circuit_op_greedy_frontier keeps every classically controlled operation after the measurement it reads'))
 
+
+    def body_deep_rebinding(cx, wrong=False):
+        t, u, v = params3(cx)
+        k = cx.choose('shape', 2)
+        loop = Sub([G('X', [1], t, conds=['a']), G('H', [0]), M('a', [0])], reps=2)  # loop WITHOUT ids: reads a, then measures a
+        outer = Sub([loop], ids=['s']) if k == 0 else Sub([loop], reps=2, use_ids=True, path=('p',))
+        items = [G('H', [2]), M('a', [2]), outer]
+        circuit = build_circuit(items)
+        flat = SM.flatten(items)
+        compare_structure(cx, cirq.CircuitOperation(circuit.freeze()).mapped_circuit(deep=True), flat, 'mapped_circuit(deep)')
+        compare_structure(cx, cirq.unroll_circuit_op(circuit, deep=True, tags_to_check=None), flat, 'unroll_circuit_op(deep=True)', wrong)
+
+    obs.append(Obligation('unroll.deep_loop_rebinding', body_deep_rebinding, twin=lambda cx: body_deep_rebinding(cx, wrong=True), points=[], desc='unroll_circuit_op(deep=True) of a scoped sub-circuit containing an id-less loop that reads a key before measuring it: every iteration keeps the binding of the loop body (as mapped_circuit(deep=True) and the simulator do)'))
     return obs
 
 
@@ -846,7 +894,7 @@ def main(tier, seed=0, replay=None, only=None, procs=None):
             'repetitions': list(REPS),
             'unitary bodies': [b[0] for b in unitary_bodies(0, 0, 0)],
             'qubit maps': 'none / swap / onto fresh qubits in reversed order; compositions f,g over 4 maps (dict, callable, with_qubits)',
-            'nesting depth': '2 (quick) / 3 (thorough); outer x inner repetitions (-1,2)x(-2,0,1,3) quick, full 6x6 thorough',
+            'nesting depth': '2 (quick) / 3 (thorough); depth 2: outer x inner repetitions (-1,2)x(-2,0,1,3) quick, full 6x6 thorough; depth 3: (-1,2)x(-2,0,1,3)x(-1,2)',
             'wrapper configurations of measuring sub-circuits': [w[0] for w in WRAPS],
             'inner bodies': [b[0] for b in inner_bodies(0, 0)],
             'nested scoping scenarios': NESTED,
